@@ -6,27 +6,8 @@ from .theory import *
 from .state import *
 from .contract import *
 from .symexec import Exec
+from .state import heap_closed
 from . import extract
-
-
-def heap_closed(h: H):
-    """HEAP-CLOSED: a reference stored in a field of an allocated object is allocated (global invariant of the Python heap)"""
-    out = []
-    x = z3.Const('x!hc', Addr)
-    for a, t in h.schema.attrs.items():
-        if t.sort == Addr and not t.opt:
-            fx = h.f(a, x)
-            out.append(z3.ForAll([x], z3.Implies(z3.And(x >= 0, x < h.alloc), z3.And(fx >= 0, fx < h.alloc)), patterns=[fx]))
-        elif t.opt and t.kind in ('obj', 'list', 'dict', 'set'):
-            fx = h.f(a, x)
-            out.append(z3.ForAll([x], z3.Implies(z3.And(x >= 0, x < h.alloc, is_VRef(fx)), z3.And(v_a(fx) >= 0, v_a(fx) < h.alloc)),
-                                 patterns=[fx]))
-    v = z3.Const('v!hc', Val)
-    out.append(z3.ForAll([x, v], z3.Implies(z3.And(x >= 0, x < h.alloc, h.bag(x, v) > 0, is_VRef(v)),
-                                            z3.And(v_a(v) >= 0, v_a(v) < h.alloc)), patterns=[h.bag(x, v)]))
-    out.append(z3.ForAll([x, v], z3.Implies(z3.And(x >= 0, x < h.alloc, h.has(x, v), is_VRef(h.val(x, v))),
-                                            z3.And(v_a(h.val(x, v)) >= 0, v_a(h.val(x, v)) < h.alloc)), patterns=[h.val(x, v)]))
-    return out
 
 
 class FnReport:
@@ -130,6 +111,8 @@ def verify_function(reg: Registry, c: Contract) -> FnReport:
                     if reg.exc_is_a(x.exc, en):
                         spec = sp
                         break
+                if spec is None and any(reg.exc_is_a(x.exc, m) for m in c.may_raise):
+                    continue
                 if spec is None:
                     ex.oblige('noexc.%s@%s' % (x.exc, x.site), stx, z3.BoolVal(False), 'noexc',
                               'no %s may escape (%s)' % (x.exc, x.site))
